@@ -135,7 +135,9 @@ func colorText(c ref.Color) string {
 
 func c11Check(w *mc.W, st *c11State, b []byte, unit string) {
 	w.Eval()
-	fail := func(key, what string) { w.Fail(key, fmt.Sprintf("input %s: %s", hexShort(b), what), mkBytesCase(b, unit)) }
+	fail := func(key, what string) {
+		w.Fail(key, fmt.Sprintf("input %s: %s", hexShort(b), what), mkBytesCase(b, unit))
+	}
 	st.rd.ResetLog()
 	derr, pnc, stack := safeDecode(&st.rd, b)
 	if pnc != nil {
